@@ -307,6 +307,45 @@ func registerIntrinsics(e *Engine) {
 		e.store(p, e.deepCopy(ent.v, ent.t))
 		return boolV(true)
 	}
+	// ByteSlicesOf(ptr) returns every []byte reachable through struct fields of
+	// *ptr (sharing their storage): what a decoder that sub-slices its input
+	// hands out.
+	in[v("ByteSlicesOf")] = func(e *Engine, a []Value, c *callCtx) Value {
+		rt := c.sig.Results().At(0).Type().Underlying().(*types.Slice)
+		var found []Value
+		var walk func(v Value, t types.Type, depth int)
+		walk = func(v Value, t types.Type, depth int) {
+			if depth > 4 {
+				return
+			}
+			switch u := t.Underlying().(type) {
+			case *types.Slice:
+				if b, ok := u.Elem().Underlying().(*types.Basic); ok && b.Kind() == types.Uint8 {
+					if sl, _ := v.O.(*Slice); sl != nil && sl.len > 0 {
+						found = append(found, v)
+					}
+				}
+			case *types.Struct:
+				if tp, _ := v.O.(*Tuple); tp != nil {
+					for i := 0; i < u.NumFields(); i++ {
+						walk(tp.e[i], u.Field(i).Type(), depth+1)
+					}
+				}
+			}
+		}
+		if ifc, _ := a[0].O.(*Iface); ifc != nil {
+			if pt, ok := ifc.t.Underlying().(*types.Pointer); ok {
+				if p, isPtr := ifc.v.O.(Ptr); isPtr {
+					walk(e.load(p), pt.Elem(), 0)
+				}
+			}
+		}
+		arr := e.newArray(rt.Elem(), len(found))
+		for i, f := range found {
+			e.arrSetFresh(arr, i, f)
+		}
+		return Value{O: &Slice{arr: arr, len: len(found), cap: len(found)}}
+	}
 	in[v("LenOf")] = func(e *Engine, a []Value, c *callCtx) Value {
 		ifc, _ := a[0].O.(*Iface)
 		if ifc == nil {
